@@ -53,6 +53,7 @@ Next ==
                     /\ bad' = IF ok THEN bad ELSE Append(bad, [l |-> l, t |-> e.t, i |-> e.i, op |-> e.op,
                                                                want |-> Len(r0), got |-> Len(e.loaded)])
                     /\ ref' = e.loaded /\ prev' = e.loaded
-               [] OTHER -> UNCHANGED <<ref, prev, bad, seen, failed>>
+               \* "limit" (the new limit is in the events that follow): nothing is loaded or entered; the first event of a trace starts afresh
+               [] OTHER -> ref' = r0 /\ prev' = p0 /\ failed' = f0 /\ UNCHANGED <<bad, seen>>
 Done == (l = Len(E) + 1) => PrintT("RESULT" \o ToJson([bad |-> bad, checked |-> seen]))
 =============================================================================
